@@ -1,15 +1,60 @@
 PROP = {
     "level": "exploration",
-    "technique": "runtime monitor: dispositions-table oracle over a real ChannelArbitrator on a real bolt arbitrator log",
-    "level_text": "placeholder",
-    "level_note": "placeholder",
+    "technique": ("runtime monitor: dispositions-table oracle (E4) over a real ChannelArbitrator on a real bolt "
+                  "arbitrator log + exhaustive enumeration of the pure classifier cells"),
+    "level_text": ("A real ChannelArbitrator (bolt log, real resolvers, stub environment that records ForceCloseChan, "
+                   "ResolutionMsgs to the switch, final HTLC outcomes, launched resolvers) is driven with generated "
+                   "local/remote/remote-pending HTLC sets (presence patterns the update protocol allows, dust per "
+                   "commitment, offered/received, preimage known via beacon or invoice, forwarded/own payment, "
+                   "expiries at cutoff +-{0,1,2} of the delivered heights, broadcast deltas {1,5,10,40}, grace "
+                   "period via TestClock) and every close trigger (chain deadline, user force close, direct "
+                   "confirmation; local / remote / pending-remote / breach / coop confirming, also after our own "
+                   "broadcast). Oracles written from the statement: force close by the first height >= expiry-delta "
+                   "of an eligible HTLC and never only for unclaimable received HTLCs; after confirmation exactly one "
+                   "resolver of the right direction per HTLC output, exactly one upstream fail-back per offered HTLC "
+                   "that is dust on / absent from the confirmed commitment (none when absent with known preimage), "
+                   "no fail-back after confirmation for an HTLC that has an output, received dust closed out. "
+                   "5e3 (quick) / 2e6 (thorough) arbitrator cases; constructChainActions additionally enumerated "
+                   "over all multisets of <=2 (quick, + every 41st triple) / <=3 (thorough) HTLC cells."),
+    "level_note": ("Sampled, except the classifier sub-space: all multisets of up to 3 of the 136 (48 without a pending "
+                   "commitment) protocol-legal HTLC cells x confirmed commitment are enumerated completely in thorough "
+                   "(exhaustive for that sub-space only). Deadline obligations are derived from the HTLCs on our own "
+                   "commitment; offered HTLCs that exist only on the peer's commitments and own payments inside the "
+                   "grace period are neutral (neither must-close nor must-not-close). Fail-backs issued at broadcast "
+                   "time for an HTLC that is dust on ours but an output on the commitment that later confirms are a "
+                   "diagnostic (documented lnd trade-off), the last sentence of the statement is applied to "
+                   "dispositions made after the confirmation. Resolvers are observed right after the close event "
+                   "(no chain progress afterwards - that is C13). When R and P carry the same offered HTLC with "
+                   "different dust-ness lnd's own result depends on map iteration order, so those cases do not "
+                   "replay bit-identically."),
     "design_ref": "DESIGN.md §3 C12",
-    "rule": "placeholder",
-    "assumptions": [],
+    "rule": ("PRNG cases (HTLC sets x heights x deltas x clock x trigger x confirmed commitment) executed by the real "
+             "ChannelArbitrator; a case is non-trivial when a commitment confirmed and the dispositions were judged; "
+             "distinct = distinct (trigger path, confirmed commitment, multiset of per-HTLC (direction, "
+             "output/dust/absent on the confirmed commitment, preimage known)) signatures. Classifier cells are "
+             "counted separately (cell_evals)."),
+    "assumptions": ["the harness supplies, per confirmed commitment, exactly the HTLC/commit/anchor resolutions lnwallet "
+                    "would produce (one per non-dust HTLC of that commitment)",
+                    "HTLC sets follow the update protocol: offered local subset-of remote and pending; received remote, "
+                    "pending subset-of local",
+                    "expiry >= broadcast delta (absolute heights), the realistic domain of shouldGoOnChain"],
+    "eval_counter": "arb_cases",
     "units": [{
         "name": "arb", "pkg": "contractcourt", "test": "TestVerifC12",
         "files": ["contractcourt/c12c13_common_test.go", "contractcourt/c12_test.go"],
         "shards": {"quick": 8, "thorough": 16},
-        "floors": {},
+        "watchdog": {"quick": 600, "thorough": 5400},
+        "floors": {
+            "quick": {"arb_cases": 2500, "oracle_deadline_evals": 8000, "oracle_resolver_evals": 2500,
+                      "oracle_failback_evals": 1000, "oracle_no_failback_evals": 1200,
+                      "oracle_received_dust_evals": 800, "oracle_breach_failback_evals": 400,
+                      "oracle_known_not_failed_evals": 300, "oracle_user_close_evals": 200,
+                      "cell_evals": 30000},
+            "thorough": {"arb_cases": 1000000, "oracle_deadline_evals": 3400000, "oracle_resolver_evals": 1100000,
+                         "oracle_failback_evals": 460000, "oracle_no_failback_evals": 550000,
+                         "oracle_received_dust_evals": 330000, "oracle_breach_failback_evals": 200000,
+                         "oracle_known_not_failed_evals": 125000, "oracle_user_close_evals": 100000,
+                         "cell_evals": 650000},
+        },
     }],
 }
